@@ -2,8 +2,6 @@
 //! It never looks at tree shape, and computes masks / coverage bit-by-bit on u128, independently of
 //! `prefix_trie::prefix`.
 
-use std::collections::BTreeMap;
-
 use crate::ptypes::GK;
 
 #[inline]
@@ -54,9 +52,11 @@ pub struct Ent {
 /// An entry as observed: (stored representation, length, value)
 pub type Obs = (u128, u8, u32);
 
+/// the abstract ordered map: a vector sorted by (masked address, length). (A `BTreeMap` would do; the
+/// vector keeps millions of explored states small.)
 #[derive(Clone, Debug, Default, PartialEq, Eq)]
 pub struct Model {
-    pub m: BTreeMap<GK, Ent>,
+    v: Vec<(GK, Ent)>,
 }
 
 impl Model {
@@ -64,48 +64,58 @@ impl Model {
         Self::default()
     }
     pub fn len(&self) -> usize {
-        self.m.len()
+        self.v.len()
+    }
+    pub fn is_empty(&self) -> bool {
+        self.v.is_empty()
+    }
+    pub fn clear(&mut self) {
+        self.v.clear();
+    }
+    fn pos(&self, k: GK) -> Result<usize, usize> {
+        self.v.binary_search_by(|(x, _)| x.cmp(&k))
     }
     pub fn get(&self, q: GK) -> Option<&Ent> {
-        self.m.get(&norm(q))
+        self.pos(norm(q)).ok().map(|i| &self.v[i].1)
     }
     pub fn obs_of(&self, q: GK) -> Option<Obs> {
         let k = norm(q);
-        self.m.get(&k).map(|e| (e.repr, k.1, e.val))
+        self.get(k).map(|e| (e.repr, k.1, e.val))
     }
     /// insert, replacing representation and value; returns the previous value
     pub fn insert(&mut self, k: GK, val: u32) -> Option<u32> {
-        self.m
-            .insert(norm(k), Ent { repr: k.0, val })
-            .map(|e| e.val)
+        let nk = norm(k);
+        match self.pos(nk) {
+            Ok(i) => {
+                let old = self.v[i].1.val;
+                self.v[i].1 = Ent { repr: k.0, val };
+                Some(old)
+            }
+            Err(i) => {
+                self.v.insert(i, (nk, Ent { repr: k.0, val }));
+                None
+            }
+        }
     }
     /// write a value without touching the representation; entry must exist
     pub fn set_val(&mut self, k: GK, val: u32) {
-        self.m.get_mut(&norm(k)).unwrap().val = val;
+        let i = self.pos(norm(k)).expect("set_val on a missing entry");
+        self.v[i].1.val = val;
     }
     pub fn remove(&mut self, k: GK) -> Option<u32> {
-        self.m.remove(&norm(k)).map(|e| e.val)
+        self.pos(norm(k)).ok().map(|i| self.v.remove(i).1.val)
     }
     /// all entries in lexicographic order
     pub fn entries(&self) -> Vec<Obs> {
-        self.m.iter().map(|(k, e)| (e.repr, k.1, e.val)).collect()
+        self.v.iter().map(|(k, e)| (e.repr, k.1, e.val)).collect()
     }
     /// the entries whose prefix is covered by `q`, in order
     pub fn under(&self, q: GK) -> Vec<Obs> {
-        self.m
-            .iter()
-            .filter(|(k, _)| covers(q, **k))
-            .map(|(k, e)| (e.repr, k.1, e.val))
-            .collect()
+        self.v.iter().filter(|(k, _)| covers(q, *k)).map(|(k, e)| (e.repr, k.1, e.val)).collect()
     }
     /// the entries whose prefix covers `q`, by increasing length
     pub fn cover(&self, q: GK) -> Vec<Obs> {
-        let mut v: Vec<(GK, &Ent)> = self
-            .m
-            .iter()
-            .filter(|(k, _)| covers(**k, q))
-            .map(|(k, e)| (*k, e))
-            .collect();
+        let mut v: Vec<(GK, &Ent)> = self.v.iter().filter(|(k, _)| covers(*k, q)).map(|(k, e)| (*k, e)).collect();
         v.sort_by_key(|(k, _)| k.1);
         v.into_iter().map(|(k, e)| (e.repr, k.1, e.val)).collect()
     }
@@ -116,18 +126,11 @@ impl Model {
         self.cover(q).first().copied()
     }
     pub fn keys(&self) -> Vec<GK> {
-        self.m.keys().copied().collect()
+        self.v.iter().map(|(k, _)| *k).collect()
     }
     /// restriction to the entries under `q`
     pub fn restrict(&self, q: GK) -> Model {
-        Model {
-            m: self
-                .m
-                .iter()
-                .filter(|(k, _)| covers(q, **k))
-                .map(|(k, e)| (*k, e.clone()))
-                .collect(),
-        }
+        Model { v: self.v.iter().filter(|(k, _)| covers(q, *k)).cloned().collect() }
     }
 }
 
